@@ -12,5 +12,6 @@ CONSTANTS
   FwdHonoursTerm = FALSE
   InitViaQueue = TRUE
   ClearCache = TRUE
+  DrainKeepsTerm = FALSE
 INVARIANTS TypeOK NoEventAfterTerminated
 ALIAS BehAlias
